@@ -166,6 +166,16 @@ Theorem C17_gcode_unhashable : forall ids ch n c, arg c = KList -> gcode_step id
 Proof. exact step_unhashable. Qed.
 Print Assumptions C17_gcode_unhashable.
 
+(* exceptions are not cached; an unknown id (7, 'Standard', '01', None) on a cache without an equal key is a KeyError *)
+Theorem C17_gcode_error_keeps_cache : forall ids ch n c e,
+  snd (gcode_step ids ch n c) = inl e -> fst (gcode_step ids ch n c) = ch.
+Proof. exact step_error_keeps. Qed.
+Print Assumptions C17_gcode_error_keeps_cache.
+Theorem C17_gcode_unknown_id : forall ids ch n c, is_klist (arg c) = false -> load ids (arg c) = None ->
+  find (fun e => ckey_eqb c (fst e)) ch = None -> gcode_step ids ch n c = (ch, inl (bs "KeyError"%bs)).
+Proof. exact step_unknown. Qed.
+Print Assumptions C17_gcode_unknown_id.
+
 (* gcode(tt=1.0) raises KeyError on a fresh cache but returns table 1 once gcode(tt=1) was called (wrapped keys compare
    with ==); gcode(1.0) never hits (a positional int is stored unwrapped); gcode(), gcode(1), gcode(tt=1), gcode('1')
    are four different objects *)
